@@ -328,7 +328,7 @@ def extra_C15(tier, seed, scratch, cfg, out):
 def _c17_lru(r):
     sch = r.choice([b"s:http|", b"s:https|", b"s:http|", b"s:https|", b"s:ftp|", b"s:HTTP|", b"s:httpx|", b"s:h|"])
     port = r.choice([b"", b"", b"t:80|", b"t:443|"])
-    hostpool = [b"h:com|", b"h:a|", b"h:www|", b"h:wwww|", b"h:b|", b"h:|", b"h:s:http|", b"h:h:www|"]
+    hostpool = [b"h:com|", b"h:a|", b"h:www|", b"h:wwww|", b"h:b|", b"h:|", b"h:s:http|", b"h:h:www|", b"h:WWW|", b"h:Www|", b"h:com|"]
     nh = r.choice([0, 0, 1, 1, 2, 2, 3, 4])
     hosts = [r.choice(hostpool) for _ in range(nh)]
     while len(hosts) >= 2 and hosts[-1] == b"h:www|" and hosts[-2] == b"h:www|":
